@@ -46,6 +46,7 @@ const (
 	PendStart   = "start"   // parked at trigger.start.begin: hooks and Start not run yet
 	PendBlocked = "blocked" // inside a blocking Start
 	PendInit    = "init"    // parked in markTriggerInitialized
+	PendFailing = "failing" // hooks or Start failed; parked inside the error broadcast to the subscribers
 )
 
 // MPeriod is the model of one live period of a trigger key.
@@ -66,6 +67,10 @@ type MPeriod struct {
 	// period had ended. What it does then (getTrigger / doneTriggerFromUpdater by trigger id)
 	// is not observable from outside, so the moment it is over is unknown.
 	StaleFinish, StaleFinishErr bool
+	// FailErr / FailSnap: the start failure whose broadcast is parked, and who was on the trigger
+	// when the broadcast began.
+	FailErr  string
+	FailSnap []int
 }
 
 type removedRec struct {
@@ -352,7 +357,7 @@ func (m *Model) startResult(p *MPeriod, err, why string) {
 	}
 }
 
-func (m *Model) runStartGoroutine(p *MPeriod, why string, stopAtInit bool) {
+func (m *Model) runStartGoroutine(p *MPeriod, why string, stopAtInit bool, failTarget int) {
 	err := m.startHooks(p, why)
 	if err == "" {
 		var returned bool
@@ -365,7 +370,51 @@ func (m *Model) runStartGoroutine(p *MPeriod, why string, stopAtInit bool) {
 		p.Pending = PendInit
 		return
 	}
+	if err != "" && failTarget >= 0 {
+		m.startFailBegin(p, err, why, failTarget)
+		return
+	}
 	m.startResult(p, err, why)
+}
+
+// startFailBegin is the first half of a start failure whose error broadcast is parked inside the
+// error message of subscriber target: the resolver walks a snapshot of the trigger's subscribers
+// (map order), so the others get their message before or after the park.
+func (m *Model) startFailBegin(p *MPeriod, err, why string, target int) {
+	p.Pending, p.FailErr = PendFailing, err
+	p.FailSnap = append([]int(nil), p.Subs...)
+	sort.Ints(p.FailSnap)
+	m.see("start-failure")
+	m.see("start-failure-broadcast-parked")
+	for _, i := range p.FailSnap {
+		s := m.Subs[i]
+		if i == target {
+			m.deferredSub = i
+			continue
+		}
+		m.deliverErr(s, ErrorMessage(err), why+" (start failure)")
+		at := len(s.Exp) - 1
+		s.Exp[at].Pending = true
+		m.unordered = append(m.unordered, i)
+		m.unorderedAt[i] = at
+	}
+}
+
+// startFailEnd is the second half: the parked message is finished, then the trigger is torn down
+// with everybody who is on it by then - also subscribers that joined during the broadcast.
+func (m *Model) startFailEnd(p *MPeriod, why string) {
+	if m.deferredSub >= 0 {
+		if s := m.Subs[m.deferredSub]; s.Live {
+			m.deliverErr(s, ErrorMessage(p.FailErr), why+" (start failure)")
+		}
+	}
+	for _, i := range p.Subs {
+		if !contains(p.FailSnap, i) {
+			m.see("joined-during-start-failure-broadcast")
+		}
+	}
+	p.Pending = PendNone
+	m.killPeriod(p, why+" (start failure)", true, false)
 }
 
 // ---- steps ----------------------------------------------------------------------------------
@@ -440,7 +489,11 @@ func (m *Model) Begin(st Step, reached bool) {
 			p.Pending = PendStart
 			return
 		}
-		m.runStartGoroutine(p, why, splitAt(st, reached, PtInit))
+		failTarget := -1
+		if splitAt(st, reached, PtWFlush) {
+			failTarget = st.Split.Target
+		}
+		m.runStartGoroutine(p, why, splitAt(st, reached, PtInit), failTarget)
 
 	case OpEvent, OpUpdateSub:
 		p := m.Periods[st.Period]
@@ -589,6 +642,10 @@ func (m *Model) Begin(st Step, reached bool) {
 			err = errStart.Error()
 		}
 		m.staleStart(p, err != "")
+		if err != "" && splitAt(st, reached, PtWFlush) {
+			m.startFailBegin(p, err, why, st.Split.Target)
+			return
+		}
 		m.startResult(p, err, why)
 	}
 }
@@ -631,7 +688,9 @@ func (m *Model) End(st Step, reached bool) {
 			if p.StartMode != StartBlock || c.Hook == HookFail {
 				m.staleStart(p, c.Hook == HookFail || p.StartMode == StartErr)
 			}
-			m.runStartGoroutine(p, why, false)
+			m.runStartGoroutine(p, why, false, -1)
+		case PtWFlush:
+			m.startFailEnd(p, why)
 		case PtInit:
 			if !p.Live {
 				m.see("init-parked-while-trigger-removed")
@@ -648,6 +707,10 @@ func (m *Model) End(st Step, reached bool) {
 			} else {
 				m.see("update-parked-while-subscriber-removed")
 			}
+		}
+	case OpReleaseStart:
+		if p := m.Periods[st.Period]; p.Pending == PendFailing {
+			m.startFailEnd(p, why)
 		}
 	case OpHeartbeat:
 		if m.deferredSub >= 0 {
@@ -715,6 +778,17 @@ func (m *Model) PredictReach(st Step) bool {
 		s := m.Subs[st.Split.Target]
 		return p.Live && s.Live && s.Period == p.Idx
 	case PtWFlush:
+		switch st.Op {
+		case OpSubscribe:
+			// the error broadcast of a failing start-up: the creator is the only subscriber then;
+			// its hook must not have flushed a message of its own before (the first Flush parks)
+			fails := st.Hook == HookFail || st.Hook != HookEmit && st.StartMode == StartErr
+			return !m.Shutdown && m.LivePeriod(st.Key) == nil && fails && st.Split.Target == st.Sub
+		case OpReleaseStart:
+			p := m.Periods[st.Period]
+			x := m.Subs[st.Split.Target]
+			return st.Err && p.Pending == PendBlocked && p.Live && x.Live && x.Period == p.Idx
+		}
 		// parks inside the first Flush of the target's delivery; a filter error is written by the
 		// calling goroutine before the fan-out starts, which the executor's waiting does not model
 		p := m.Periods[st.Period]
@@ -747,8 +821,8 @@ func (m *Model) PredictReach(st Step) bool {
 // HoldsUpdater reports whether a step parked at its window holds the updater mutex of its
 // trigger, so that every other updater call on the same trigger blocks until the resume.
 func HoldsUpdater(st Step) bool {
-	if st.Split == nil {
-		return false
+	if st.Split == nil || st.Op == OpSubscribe || st.Op == OpReleaseStart {
+		return false // (their windows are in the trigger's start goroutine, outside the updater)
 	}
 	switch st.Split.Point {
 	case PtUpdate, PtComplete, PtError, PtHeartbeat, PtWFlush, PtWComplete, PtWError, PtWHeartbeat:
@@ -771,13 +845,27 @@ func IsUpdaterOp(op string) bool {
 // sits inside a writer method, i.e. under the subscription's write lock - a removal of that
 // subscriber (it unregisters at once but signals completion only when the write lock is free).
 func (m *Model) Blocks(parent, nested Step) bool {
-	if !HoldsUpdater(parent) {
-		return false
-	}
-	if IsUpdaterOp(nested.Op) && nested.Period == parent.Period {
+	if HoldsUpdater(parent) && IsUpdaterOp(nested.Op) && nested.Period == parent.Period {
 		return true
 	}
 	return m.BlocksOnWriter(parent, nested)
+}
+
+// failingPeriod returns the trigger period whose start-failure broadcast the parked step is in
+// the middle of, or -1.
+func (m *Model) failingPeriod(parent Step) int {
+	if parent.Split == nil || parent.Split.Point != PtWFlush {
+		return -1
+	}
+	switch parent.Op {
+	case OpSubscribe:
+		if parent.Sub < len(m.Subs) {
+			return m.Subs[parent.Sub].Period
+		}
+	case OpReleaseStart:
+		return parent.Period
+	}
+	return -1
 }
 
 // BlocksOnWriter is the second case of Blocks.
@@ -827,8 +915,15 @@ func (m *Model) NestedAdmissible(parent, n Step, blockedSoFar int, writerBlocked
 		if n.Op == OpShutdown && !m.Shutdown {
 			return false
 		}
-		if n.Op == OpReleaseStart && n.Period == parent.Period {
+		if n.Op == OpReleaseStart && HoldsUpdater(parent) && n.Period == parent.Period {
 			return false
+		}
+		if f := m.failingPeriod(parent); f >= 0 {
+			// a source whose Start failed does not call its updater; a delivery to the parked
+			// subscriber would block a resolver goroutine on its write lock
+			if IsUpdaterOp(n.Op) && n.Period == f || n.Op == OpReleaseStart && n.Period == f {
+				return false
+			}
 		}
 	}
 	return true
